@@ -10,7 +10,7 @@ open Petl.Gen
 def expectedC18 : List (String × String) := [
   ("file:comparison.py", "c46d05a1308c92ce"),
   ("file:config.py", "142bde514c82c29d"),
-  ("file:io/json.py", "9a87ae69473e052e"),
+  ("file:io/json.py", "5e1ef8b67f567a77"),
   ("file:transform/sorts.py", "137f7e8a70e043fe"),
   ("file:util/base.py", "771a68108eeb730d"),
   ("io.json.DictsGeneratorView", "814ca50f549ea08b"),
